@@ -198,7 +198,7 @@ PROPS["C04"] = {
 
 PROPS["C02"] = {
     "level": "other",
-    "rules": [p_codec.tab_cw, p_codec.tab_sets, p_wire.prov_sym, p_wire.pad_path, only(p_b256.tab_b256, B256_ENC, "encoder side"), p_rs.prov_rsenc, only(p_symbols.tab_sym, SYM_RS, "codeword and block columns"), p_endrules.end_x12, p_endrules.end_c40, p_endrules.end_edifact],
+    "rules": [p_codec.tab_cw, p_codec.tab_sets, p_wire.prov_sym, p_wire.pad_path, only(p_b256.tab_b256, B256_ENC, "encoder side"), p_rs.prov_rsenc, only(p_symbols.tab_sym, SYM_RS, "codeword and block columns"), p_endrules.end_x12, p_endrules.end_c40, p_endrules.end_edifact, only(p_plan.prov_plan, lambda k: k == "encoder-plan", "the plan the encoder follows")],
     "explanation": "Clause-level claim. Decided: every codeword constant equals ISO/IEC 16022 Table 2; the encoder-side C40/Text/X12/"
                    "EDIFACT/ASCII character tables (extracted as per-byte decision tables) equal Annex C / 5.2.7 / 5.2.8 transcribed "
                    "independently of the decoder, with the 1600/40/1 packing; the returned symbol is symbol_for(0) = the first symbol of "
@@ -213,7 +213,7 @@ PROPS["C02"] = {
 
 PROPS["C01"] = {
     "level": "other",
-    "rules": [p_macro.fld_input, p_codec.tab_codec, p_b256.tab_b256, p_wire.prov_pipe, p_codec.dec_mode, p_endrules.end_x12, p_endrules.end_c40, p_endrules.end_edifact],
+    "rules": [p_macro.fld_input, p_codec.tab_codec, p_b256.tab_b256, p_wire.prov_pipe, p_codec.dec_mode, p_endrules.end_x12, p_endrules.end_c40, p_endrules.end_edifact, only(p_plan.prov_plan, lambda k: k == "encoder-plan", "the plan the encoder follows")],
     "explanation": "Clause-level claim; the inverse law itself (equality of byte strings over all inputs and configurations) is not "
                    "decidable statically. Three structural necessary conditions are decided: FLD-INPUT - the encoder's read cursor "
                    "`.data` always stays a suffix of `.input` (every writer enumerated crate-wide), which backup() relies on; TAB-CODEC - "
